@@ -3,6 +3,7 @@
 from __future__ import annotations
 
 import json
+import os
 import random
 
 from mbt import batch, tlc
@@ -128,6 +129,37 @@ def _explore_job(job):
     return {"traces": traces, "runs": runs, "exhaustive": exhaustive}
 
 
+def real_exit_cases(ctx):
+    """a task running on a secondary pool thread of a real popen worker when gateway.exit() arrives still runs to its end"""
+    import time
+
+    import execnet
+
+    from real import procs
+
+    out = []
+    for em in ("thread",) if ctx.quick else ("thread", "thread", "thread"):
+        group = execnet.Group()
+        marker = os.path.join(ctx.scratch, f"marker-{len(out)}")
+        c = {"started": False, "marker": False, "gone": False, "execmodel": em}
+        try:
+            gw = group.makegateway(f"popen//execmodel={em}")
+            pid = gw.remote_exec("import os\nchannel.send(os.getpid())").receive(20)
+            a = gw.remote_exec("channel.send('a-runs')\ntry:\n    channel.receive()\nexcept EOFError:\n    pass")
+            a.receive(20)
+            b = gw.remote_exec("import time\nchannel.send('b-runs')\ntime.sleep(1.0)\nopen(%r, 'w').write('done')" % marker)
+            c["started"] = b.receive(20) == "b-runs"
+            gw.exit()
+            c["gone"] = procs.wait_gone([pid], 12.0)[pid] != -1
+            c["marker"] = os.path.exists(marker)
+        except Exception as e:  # noqa: BLE001
+            c["err"] = type(e).__name__
+        finally:
+            group.terminate(timeout=2)
+        out.append(c)
+    return out
+
+
 def run(ctx):
     rng = random.Random(ctx.seed + 9)
     # ---- M1: exhaustive TLC on the implementation-shaped model (fixed design), M2: the un-fixed design must fail
@@ -207,6 +239,14 @@ def run(ctx):
                 ctx.machinery(f"trace vocabulary mismatch: {vd}")
             ctx.violation(f"{vd}: program={json.dumps(it['prog'])} schedule={it['decisions'][:60]}",
                           {"prog": it["prog"], "decisions": it["decisions"], "events": evs, "verdict": vd})
+    reals = real_exit_cases(ctx)
+    rv = batch.judge("PoolRealCases", [{"started": c["started"], "marker": c["marker"], "gone": c["gone"]} for c in reals], ctx.scratch)
+    for c, vd in zip(reals, rv):
+        if vd.startswith("HARNESS"):
+            ctx.machinery(f"{vd}: {c}")
+        if vd != "ok":
+            ctx.violation(f"{vd}: {json.dumps(c)}", c)
+    ctx.coverage["real_worker_exit_cases"] = len(reals)
     ctx.coverage.update({
         "states": states, "transitions": trans,
         "traces_validated_against_impl": len(items),
